@@ -120,7 +120,7 @@ def make_curve(ctx, prog, name, D, P):
         # x0 = 2 atan(u): tan, sin, cos of x0 are rational in u (DESIGN 2.5(4))
         import math
         for idx in np.ndindex(*X[0].shape):
-            u = ctx.var('u%s' % list(idx))
+            u = ctx.var('u_%s%s' % (name, list(idx)))
             ctx.assume(u != 1)
             ctx.assume(u != -1)
             if ctx.mode == 'sym':
@@ -193,7 +193,19 @@ def h_prog(ctx, pname, D, P):
     arg, X = make_curve(ctx, prog, 'x', D, P)
     A = Namespace(algopy, make_consts(ctx, prog))
     x = O.wrap(ctx, algopy, arg, X)
-    cg, fx, fy = record(ctx, algopy, A, prog, x)
+    if any(t.startswith('fac:') for t in prog.tags):
+        cg, fx, fy = record(ctx, algopy, A, prog, x)
+    else:
+        # record at an unrelated point / degree, then re-evaluate the graph on the curve
+        fp_save = ctx.fac_params if hasattr(ctx, 'fac_params') else None
+        rarg, R = make_curve(ctx, prog, 'r', 1, 1)
+        cg, fx, fy = record(ctx, algopy, A, prog, O.wrap(ctx, algopy, rarg, R))
+        try:
+            cg.pushforward([x])
+        except Exception as e:
+            last = [l for l in str(e).strip().splitlines() if l.strip()]
+            ctx.fact(False, 're-evaluation of the recorded graph raised: %s' % (last[-1][:160] if last else type(e).__name__))
+            return
     ctx.fact(isinstance(fy.x, algopy.UTPM), 'program output is a UTPM')
     if not isinstance(fy.x, algopy.UTPM):
         return
@@ -262,7 +274,7 @@ def h_prog(ctx, pname, D, P):
                 seed[X[idx].a[0]] = V[idx]
         if 'halfangle' in prog.tags:
             for idx in np.ndindex(*X[0].shape):
-                u = ctx.vars['u%s' % list(idx)]
+                u = ctx.vars['u_x%s' % list(idx)]
                 seed[u.a[0]] = V[(0,) + idx] * (1 + u * u) / 2
         flat = [S.lift(e) for e in Y.ravel()]
         dY = np.array(diff.d(flat, seed), dtype=object).reshape(Y.shape)
@@ -291,7 +303,7 @@ def bounds(tier):
 def units(tier, seed):
     out = []
     D, P = (2, 2) if tier == 'quick' else (3, 2)
-    opts = {'property': PROP, 'float_tol': 2e-5, 'path_budget': 100}
+    opts = {'property': PROP, 'float_tol': 2e-5, 'path_budget': 900}
     for prog in PR.catalogue():
         if 'slow' in prog.tags and tier == 'quick':
             continue
